@@ -2376,10 +2376,16 @@ func (a *Agent) TaskDispatch(RequestID uint32, CommandID uint32, Parser *parser.
 				WorkingHours int32
 			)
 
-			a.Encryption.AESKey = Parser.ParseAtLeastBytes(32)
-			a.Encryption.AESIv = Parser.ParseAtLeastBytes(16)
+			var (
+				AESKey = Parser.ParseAtLeastBytes(32)
+				AESIv  = Parser.ParseAtLeastBytes(16)
+			)
 
-			if Parser.CanIRead([]parser.ReadType{parser.ReadInt32, parser.ReadBytes, parser.ReadBytes, parser.ReadBytes, parser.ReadBytes, parser.ReadBytes, parser.ReadInt32, parser.ReadInt32, parser.ReadInt32, parser.ReadInt32, parser.ReadInt32, parser.ReadInt32, parser.ReadInt32, parser.ReadInt32, parser.ReadInt32, parser.ReadInt32, parser.ReadInt32, parser.ReadInt32, parser.ReadInt64, parser.ReadInt32}) {
+			// only a complete metadata block that names this very agent may update the session
+			if Parser.CanIRead([]parser.ReadType{parser.ReadInt32, parser.ReadBytes, parser.ReadBytes, parser.ReadBytes, parser.ReadBytes, parser.ReadBytes, parser.ReadInt32, parser.ReadInt32, parser.ReadInt32, parser.ReadInt32, parser.ReadInt32, parser.ReadInt32, parser.ReadInt32, parser.ReadInt32, parser.ReadInt32, parser.ReadInt32, parser.ReadInt32, parser.ReadInt32, parser.ReadInt64, parser.ReadInt32}) && int(binary.BigEndian.Uint32(Parser.Buffer()[:4])) == AgentID {
+				a.Encryption.AESKey = AESKey
+				a.Encryption.AESIv = AESIv
+
 				DemonID = Parser.ParseInt32()
 				Hostname = Parser.ParseString()
 				Username = Parser.ParseString()
